@@ -9,11 +9,15 @@ package props
 // (c36_model.go): Go keywords + predeclared identifiers + declared names; after a dot the members
 // of the package (imports.Packages), or the fields and methods (promoted ones included) of the
 // declared type (model) / imported type (reflect).
+// Two single-state families add the dimensions the sequence family lacks: c36_ctx.go (what stands before and after
+// the chain on the line: multi-byte text, blanks around dots, non-ASCII identifiers, `(x).w`) and c36_embed.go
+// (structs embedding several types: Go's depth and ambiguity rule, decided by go/types).
 
 import (
 	"bytes"
 	"encoding/json"
 	"fmt"
+	"os"
 	"runtime"
 	"sort"
 	"strings"
@@ -97,6 +101,11 @@ func (o c36Op) Source() string {
 		return fmt.Sprintf("type %s struct { %s; a int; g G }\nfunc (%s) am() {}\nfunc (*%s) Abp() {}", o.Name, emb, o.Name, o.Name)
 	case "varof":
 		return "var " + o.Name + " " + o.Arg
+	case "raw":
+		return o.Arg
+	case "utype":
+		// a struct type with non-ASCII member names (family: line contexts)
+		return fmt.Sprintf("type %s struct { größe int; Größe string; ab int; a1 int }\nfunc (%s) öl() {}\nfunc (*%s) Ab2() {}", o.Name, o.Name, o.Name)
 	case "import":
 		base := o.Arg
 		if o.Name == base {
@@ -207,10 +216,12 @@ func (w *c36World) apply(o c36Op) string {
 }
 
 type c36Case struct {
-	Ops   []c36Op `json:"ops"`
-	Inner bool    `json:"ask_inner_interp"`
-	Line  string  `json:"line"`
-	Pos   int     `json:"pos"`
+	Family string  `json:"family,omitempty"` // "" declaration sequences | "context" | "embedded"
+	Unit   int     `json:"unit,omitempty"`   // embedded: the struct type
+	Ops    []c36Op `json:"ops"`
+	Inner  bool    `json:"ask_inner_interp"`
+	Line   string  `json:"line"`
+	Pos    int     `json:"pos"`
 }
 
 // ---------------------------------------------------------------------------------------------
@@ -277,6 +288,8 @@ type c36Checker struct {
 	excluded int
 	sameHead int
 	sigSeen  map[string]int
+	family   string // "" | "context" | "embedded": recorded in the cases
+	unit     int
 }
 
 // report formats and records a violation; after a few examples of one signature the (expensive) text is no longer built.
@@ -285,6 +298,7 @@ func (k *c36Checker) report(sig string, what func() string, cas func() c36Case) 
 		k.sigSeen = map[string]int{}
 	}
 	k.sigSeen[sig]++
+	k.c.Count("viol:"+sig, 1)
 	if k.sigSeen[sig] > 3 {
 		k.c.Count("violations_not_detailed_same_signature", 1)
 		return
@@ -350,7 +364,7 @@ func (k *c36Checker) checkOne(w *c36World, ir *fast.Interp, ops []c36Op, askInne
 	w.out.Reset()
 	gotHead, got, gotTail := ir.CompleteWords(line, pos)
 	cas := func() c36Case {
-		return c36Case{Ops: append([]c36Op{}, ops...), Inner: askInner, Line: line, Pos: pos}
+		return c36Case{Family: k.family, Unit: k.unit, Ops: append([]c36Op{}, ops...), Inner: askInner, Line: line, Pos: pos}
 	}
 	where := func() string {
 		who := "outer"
@@ -458,12 +472,16 @@ func c36Run(c *core.Ctx) {
 	maxLen := c.Pick(2, 3)
 	c.Rule("every sequence of <=2 declarations (quick: the 2nd one from a reduced alphabet of 18; thorough: + every sequence of 3 whose 2nd and 3rd declarations come from that reduced alphabet) from {var, const (typed/untyped), func, struct type embedding E or *E with value/pointer methods and a non-embedded struct field, var of such a type or a pointer to it, import of strings/fmt plain or renamed} over names {a, ab, abc, b, Ab}, each declared in the top interpreter or (shadowing) in an inner Interp; " +
 		"in every state every line `w`, `x.w`, `x.y.w`, ` f(x.w` (w over all prefixes of the names/members in play, \"\" and non-matching words) at every cursor position, asked on the outer and on the inner interpreter; " +
+		"family line contexts: one state with ASCII and non-ASCII names × 27 texts before the chain (blanks, operators, brackets, earlier dots, closed literals and comments with 2/3/4-byte characters, combining marks, earlier non-ASCII identifiers) × every rune-wise prefix as single word, after x., after x.y., with blanks around the dots, and after a parenthesised variable (x). × 6 texts after the cursor; " +
+		"family embedding lattice: 1434 struct types embedding 2-3 of {12 struct leaves with Ab ∈ {none, field, value method, pointer method} × ab ∈ {none, field, method}, by value or by pointer; 3 interfaces} directly, one level deeper, along two paths, with a shadowing own member, completed through a variable, a pointer variable and the type name, one and two steps, valid selectors decided by go/types LookupFieldOrMethod; " +
 		"non-trivial = distinct (state, text before the cursor) pairs for which the reference offers at least one completion")
 	c.Assume("predeclared identifiers of the interpreter are the Go 1.18 universe without comparable/iota plus gomacro's documented builtins (Eval, EvalKeepUntyped, EvalType, Interp, MacroExpand, MacroExpand1, MacroExpandCodeWalk, Parse, Pointer); keywords are Go's 25 plus `macro` (plus `template` only with C++-style generics)",
 		"with 'contracts are interfaces' generics (the default) basic types have the operator methods documented in README/doc (Add, Sub, …, Cmp, Equal, Less; string: Add, Index, Len, Slice): they are valid selectors and belong to the reference",
 		"a type name before the dot is completed like a value of that type (contract taken from fast/repl.go: `{type,value}.method`), although Go rejects `T.field`",
 		"members of an imported package = names of imports.Packages[path].Binds and .Types; members of an imported type = exported fields and methods seen by reflect",
 		"the text after the cursor is only handed through: in states reached by 2+ declarations each distinct text-before-the-cursor is executed with an empty and with a non-empty rest of the line, further (line, cursor) pairs with the same text before the cursor are counted as covered (cursor_positions_covered_by_identical_text_before_cursor); in states reached by <=1 declaration every pair is executed",
+		"the cursor is on a character boundary; identifiers are scanned by runes as the Go spec defines them (letter = '_' or category L, digit = category Nd); blanks (space, tab) may surround the dots of a chain",
+		"a dot after something that is not an identifier (`(x).w`) is outside the documented reach of the completer: offering nothing is accepted, anything offered must be a field or method of x",
 		"excluded as unspecified: selectors on an untyped constant; a name declared as type and as value/package in scopes visible together (gomacro keeps two namespaces)")
 	lines := c36Lines()
 	k := &c36Checker{c: c, lines: lines}
@@ -496,7 +514,14 @@ func c36Run(c *core.Ctx) {
 			visit(append(append([]c36Op{}, prefix...), o), m2)
 		}
 	}
-	visit(nil, c36NewModel())
+	// the two single-state families first (cheap; never cut short by the deadline of the sequence enumeration)
+	c36ContextFamily(c, k, nil)
+	c36EmbeddedFamily(c, k, nil)
+	if os.Getenv("VERIF_C36_FAMILIES_ONLY") != "" {
+		c.Cap("development run: declaration sequences skipped (VERIF_C36_FAMILIES_ONLY)")
+	} else {
+		visit(nil, c36NewModel())
+	}
 	if c.Shard == 0 {
 		c.States(len(states)) // distinct model states reached; identical in every worker, reported once
 	}
@@ -540,6 +565,14 @@ func c36Replay(c *core.Ctx, raw json.RawMessage) {
 	var cas c36Case
 	if err := json.Unmarshal(raw, &cas); err != nil {
 		panic(err)
+	}
+	switch cas.Family {
+	case "context":
+		c36ContextFamily(c, &c36Checker{c: c}, &cas)
+		return
+	case "embedded":
+		c36EmbeddedFamily(c, &c36Checker{c: c}, &cas)
+		return
 	}
 	w := c36NewWorld()
 	for _, o := range cas.Ops {
